@@ -13,11 +13,16 @@ UNITS = [
     (M, "ComponentType.process"),
     (P, "rule.process"),
     (M, "run_components"),
+    (M, "ComponentType.__init__@classify"),
+    (M, "ComponentType.__init__@dependencies"),
 ]
 REFINEMENTS = [
     ((M, "ComponentType.process"), ("Delegate", "process")),
     ((P, "rule.process"), ("Delegate", "process")),
 ]
-NOT_CARRIED = ["ComponentType.__init__ (dependency classification from *deps/**kwargs) - see DESIGN.md",
+NOT_CARRIED = ["ComponentType.__init__: two windows of the body are under contract (classification of the declared dependencies into required / "
+               "at-least-one / the ordered argument list; optional dependencies last; dependency set == members of the list). Not executed: the "
+               "*deps / **kwargs unpacking before them (`deps`, the entry values of the three lists are arbitrary), optional from kwargs, metadata, "
+               "group, tags",
                "apply_configs / apply_default_enabled name-prefix matching",
                "datasource and parser calling conventions are their own contracts (C03), not the default positional binding"]
